@@ -135,6 +135,27 @@ def args_probe(mode):
                         f'variants and metadata were filled in) differs from the same build before that use: '
                         f'{len(again_z)} vs {len(fresh_z)} bytes')
     digests.append(hashlib.sha1(fresh_z).hexdigest())
+    # function objects that share one code object (closures of a factory, lambdas in a loop) and differ in
+    # their defaults: each definition carries ITS function's defaults
+    try:
+        from tools import scgf as _scgf
+
+        def make(fq, amp):
+            def voice(freq=fq, amp=amp):
+                Out.kr(0, SinOsc.kr(freq) * amp)
+            return voice
+        for fq, amp in ((220, 0.5), (440, 0.25), (220, 0.125)):
+            d = _scgf.parse(bytes(SynthDef('fv', make(fq, amp)).as_bytes()))[0]
+            if [float(x) for x in d['params']] != [float(fq), float(amp)]:
+                problems.append(f'definition of a factory-made function with defaults ({fq}, {amp}) carries control defaults {d["params"]} '
+                                '(another function with the same code object was built before)')
+        lams = [(lambda freq=f0: Out.kr(0, SinOsc.kr(freq))) for f0 in (100, 200, 300)]
+        for f0, lam in zip((100, 200, 300), lams):
+            d = _scgf.parse(bytes(SynthDef('lv', lam).as_bytes()))[0]
+            if [float(x) for x in d['params']] != [float(f0)]:
+                problems.append(f'definition of the loop lambda with default {f0} carries control defaults {d["params"]}')
+    except Exception as e:
+        problems.append(f'building factory-made functions raised {type(e).__name__}: {e}'[:200])
     # one definition per constructible unit class of the library: the bytes must not depend on the hash
     # seed, the mode or what was built before (digests are compared across all configurations)
     try:
